@@ -59,6 +59,13 @@ class PPOps (R : Type) extends OfScientific R, Add R, Sub R, Mul R, Div R, Neg R
   sqrt : R → R
   /-- `f64::cbrt` (total: the real cube root) -/
   cbrt : R → R
+  /-- `f64::sin`, `f64::atan2(y, x)` (receiver `y`) -/
+  sin : R → R
+  atan2 : R → R → R
+  /-- `x as f32` followed by `f64::from`: rounding to the nearest binary32 value (identity over ℝ).
+  An `f32` operation on `f32` operands is `r32 (a op b)`: for `+ - * /` and `sqrt` rounding the exact
+  binary64 result again to binary32 equals the directly rounded binary32 result (53 ≥ 2·24 + 2). -/
+  r32 : R → R
   /-- `std::f64::consts::PI` -/
   pi : R
   /-- `f64::INFINITY`, `f64::NEG_INFINITY`, `f64::NAN` as *results* -/
